@@ -164,8 +164,8 @@ func VH_C13_signing_key() {
 		return
 	}
 	keyOK, certOK := vhSigningKeyMatches(ctx, c)
-	vAssert("C13.signs-with-explicit-signing-key-else-encryption-key(setter-over-field)", keyOK)
-	vAssert("C13.embeds-certificate-of-that-key", certOK)
+	vAssert("C13,C14.signs-with-explicit-signing-key-else-encryption-key(setter-over-field)", keyOK)
+	vAssert("C13,C14.embeds-certificate-of-that-key", certOK)
 	if rerr == nil {
 		vReach("reported", true)
 		vAssert("C13.reported-signing-cert-is-the-cert-of-the-key-used", vBytesEq(reported, c.signCert))
@@ -174,7 +174,7 @@ func VH_C13_signing_key() {
 	}
 	// a later call signs with the same key and embeds the same certificate (cached or rebuilt)
 	k2, c2 := vhSigningKeyMatches(sp.SigningContext(), c)
-	vAssert("C13.later-calls-use-the-same-key-and-certificate", k2 && c2)
+	vAssert("C13,C14.later-calls-use-the-same-key-and-certificate", k2 && c2)
 }
 
 // VH_C19_keys: published KeyDescriptors match the keys really used.
